@@ -208,12 +208,17 @@ def fresh_alphas(m, ex, gap=Fraction(1, 20), only=None, ties=False):
     return pairs, sy
 
 
-def set_alphas(m, values):
+def set_alphas(m, values, how='nograd'):
+    """how='nograd': in place under no_grad (bumps the version counter, as torch.optim does); how='data': through .data (it does not)"""
     byname = dict(quantizers(m))
     with torch.no_grad():
         for name, vals in values.items():
             q = byname[name]
-            q.alpha.copy_(torch.tensor([float(Fraction(v)) for v in vals], dtype=torch.float32).reshape(q.alpha.shape))
+            t = torch.tensor([float(Fraction(v)) for v in vals], dtype=torch.float32).reshape(q.alpha.shape)
+            if how == 'data':
+                q.alpha.data.copy_(t)
+            else:
+                q.alpha.copy_(t)
 
 
 def values_of(mm, sy):
